@@ -22,7 +22,7 @@ type c14Size struct {
 
 var c14SizeNs = []int{0, 1, 2, 7, 8, 9, 15, 16, 17, 19, 20, 21, 31, 32, 33, 49, 50, 51, 63, 64, 65, 99, 100, 101, 127, 128, 129, 255, 256, 257, 511, 512, 513, 1000}
 
-const c14SizeFamilies = 20
+const c14SizeFamilies = 21
 
 func rep(s string, n int, sep string) string {
 	if n <= 0 {
@@ -194,6 +194,13 @@ func c14SizeCase(f, v, n int) (tpls map[string]string, extra map[string]interfac
 			tpls["t"] = "{{ " + lit + "|join('')|length }}|{{ " + lit + "|length }}{{ " + lit + "|first }}{{ " + lit + "|last }}{{ 'k0000' in " + lit + " ? 'y' : 'n' }}"
 			want = strconv.Itoa(5*(n+2)) + "|" + strconv.Itoa(n+2) + asc[len(asc)-1] + "k0000y"
 		}
+	case 20: // many whitespace-control markers
+		unit := "<b>  {{- s1 -}}  </b>"
+		if v%2 == 1 {
+			unit = "<i> \n{{- n1 }}\t {#- c -#} </i>"
+		}
+		tpls["t"] = strings.Repeat(unit, n+1)
+		want = "\x00unit" // (n+1) copies of whatever one copy renders to
 	case 18: // long number literals and long comments inside expressions' neighbourhood
 		tpls["t"] = "{{ 2." + strings.Repeat("0", n) + "0 > 1 ? 'g' : 'l' }}{# " + strings.Repeat("c", n) + " #}{{ 'q' }}"
 		want = "gq"
@@ -210,6 +217,16 @@ func c14SizeLeg(sc *c14Sc, o *Outcome, fp *uint64) *Violation {
 		got, w := c14SizeRender(sc.Prog, tpls, extra)
 		*fp = simrt.Mix(*fp, w.Fingerprint(), strHash(got.Key()))
 		o.Probes["size_leg_renders"]++
+		if want == "\x00unit" {
+			if i == 0 {
+				one, _ := c14SizeRender(sc.Prog, map[string]string{"t": tpls["t"][:len(tpls["t"])/(n+1)]}, extra)
+				if one.Class != "ok" {
+					return nil
+				}
+				ref = one.Out
+			}
+			want = strings.Repeat(ref, n+1)
+		}
 		if want == "\x00same" {
 			if i == 0 {
 				ref = got.Key()
